@@ -110,8 +110,32 @@ class BoundsChecker:
             body = [x for x in m.node.body if not (isinstance(x, ast.Expr) and isinstance(x.value, ast.Constant))]
             if len(body) == 1 and isinstance(body[0], ast.Return) and body[0].value is not None:
                 return self.cond_facts(body[0].value, truth, facts)
+        if isinstance(test, ast.Call) and isinstance(test.func, ast.Name) and not test.keywords:
+            if test.func.id == 'bool' and len(test.args) == 1:
+                return self.cond_facts(test.args[0], truth, facts)
+            # module-level predicate  f(a, b)  whose body is `return <expr>`: the expression with the arguments substituted
+            for d in self.fn.module.tree.body:
+                if isinstance(d, ast.FunctionDef) and d.name == test.func.id and d is not self.fn.node:
+                    body = [x for x in d.body if not (isinstance(x, ast.Expr) and isinstance(x.value, ast.Constant))]
+                    params = [a_.arg for a_ in d.args.args]
+                    if len(body) == 1 and isinstance(body[0], ast.Return) and body[0].value is not None \
+                            and len(params) == len(test.args) and not d.args.vararg and not d.args.kwarg \
+                            and all(isinstance(a_, (ast.Name, ast.Attribute)) for a_ in test.args):
+                        import copy
+                        sub = dict(zip(params, test.args))
+
+                        class _S(ast.NodeTransformer):
+                            def visit_Name(self, n):  # noqa: N802
+                                return copy.deepcopy(sub[n.id]) if n.id in sub else n
+                        return self.cond_facts(_S().visit(copy.deepcopy(body[0].value)), truth, facts)
         if isinstance(test, ast.UnaryOp) and isinstance(test.op, ast.Not):
             return self.cond_facts(test.operand, not truth, facts)
+        if isinstance(test, ast.Compare) and len(test.ops) > 1 and truth:
+            # a <= b < c  holds: every adjacent pair holds
+            terms = [test.left, *test.comparators]
+            for (l_, op_, r_) in zip(terms, test.ops, terms[1:]):
+                out.join_in(self.cond_facts(ast.Compare(left=l_, ops=[op_], comparators=[r_]), True, facts))
+            return out
         if isinstance(test, ast.BoolOp):
             if (isinstance(test.op, ast.And) and truth) or (isinstance(test.op, ast.Or) and not truth):
                 for v in test.values:
